@@ -5,3 +5,12 @@ import HealSparse.Props.C09
 #print axioms HS.C09.produce_frame
 #print axioms HS.C09.produce_result
 #print axioms HS.C09.no_tie
+#print axioms HS.C09.line_frame
+#print axioms HS.C09.produce_inputs_unchanged
+#print axioms HS.C09.produce_tables_unchanged
+#print axioms HS.C09.inplace_others_unchanged
+#print axioms HS.C09.inplace_view_parent
+#print axioms HS.C09.static_pool_unchanged
+#print axioms HS.C09.files_frame
+#print axioms HS.C09.no_tie_world
+#print axioms HS.C09.result_independent
